@@ -2,8 +2,8 @@ import YakModel.Proto.NodeSet
 /-!
 # `NodeSet`: concrete runs (capacity 3), one event at a time
 
-The non-vacuity witnesses of C04 and C06 are concrete runs of the `NodeSet` model. Evaluating a whole
-run inside the kernel (`decide` on `exec ⟨3⟩ init run`) is very expensive: the `State` has
+The non-vacuity witness of C04 (`stable_keys_witness`) is a concrete 28-event run of the `NodeSet`
+model. Evaluating a whole run inside the kernel (`decide` on `exec ⟨3⟩ init run`) is very expensive: the `State` has
 function-valued fields (`w`, `sc`, built by nested `upd`) and the intermediate states stay
 unevaluated thunks that are re-evaluated at every use. Here every intermediate state is written down
 as a literal (`chain`, `nextId`, `completed` explicit; `w` / `sc` as ONE more `upd` on the previous
@@ -18,16 +18,6 @@ open Yak.Proto.NodeSet
 theorem exec_cons {c : Cfg} {s s' : State} {e : Event} {es : List Event} {r : Option State}
     (h : step? c s e = some s') (hr : exec c s' es = r) : exec c s (e :: es) = r := by
   simp [exec, h, hr]
-
-theorem exec_append {c : Cfg} {s s' : State} {es es' : List Event} {r : Option State}
-    (h : exec c s es = some s') (hr : exec c s' es' = r) : exec c s (es ++ es') = r := by
-  induction es generalizing s with
-  | nil => simp [exec] at h; subst h; simpa using hr
-  | cons e es ih =>
-    simp only [List.cons_append, exec] at h ⊢
-    cases hs : step? c s e with
-    | none => simp [hs] at h
-    | some s2 => rw [hs] at h; simpa using ih h
 
 /-! ### the common prefix: keys 1, 3, 5 are stored -/
 
@@ -219,228 +209,5 @@ theorem ovt_exec : exec ⟨3⟩ ovt10
     (exec_cons ovt19_step (exec_cons ovt20_step (exec_cons ovt21_step (exec_cons ovt22_step
     (exec_cons ovt23_step (exec_cons ovt24_step (exec_cons ovt25_step (exec_cons ovt26_step
     (exec_cons ovt27_step (exec_cons ovt28_step rfl)))))))))))))))))
-
-/-! ### C06 `missedRun` -/
-
-def mis1 : State :=
-  ⟨[⟨0, 0, [], 0, 0, true, false⟩],
-   1, upd init.w 0 (.held 2 0),
-   init.sc, []⟩
-theorem mis1_step : step? ⟨3⟩ init (.wLock 0 2 0) = some mis1 := rfl
-
-def mis2 : State :=
-  ⟨[⟨0, 0, [2], 0, 0, true, true⟩],
-   1, upd mis1.w 0 (.published 2 0),
-   mis1.sc, []⟩
-theorem mis2_step : step? ⟨3⟩ mis1 (.wInsert 0) = some mis2 := rfl
-
-def mis3 : State :=
-  ⟨[⟨0, 0, [2], 1, 0, false, false⟩],
-   1, upd mis2.w 0 .idle,
-   mis2.sc, [2]⟩
-theorem mis3_step : step? ⟨3⟩ mis2 (.wUnlock 0) = some mis3 := rfl
-
-def mis4 : State :=
-  ⟨[⟨0, 0, [2], 1, 0, false, false⟩],
-   1, mis3.w,
-   upd mis3.sc 0 (.want 1 4), [2]⟩
-theorem mis4_step : step? ⟨3⟩ mis3 (.sStart 0 1 4) = some mis4 := rfl
-
-def mis5 : State :=
-  ⟨[⟨0, 0, [2], 1, 0, false, false⟩],
-   1, mis4.w,
-   upd mis4.sc 0 (.run 1 4 [] [] 0 .fresh), [2]⟩
-theorem mis5_step : step? ⟨3⟩ mis4 (.sEnter 0 0) = some mis5 := rfl
-
-def mis6 : State :=
-  ⟨[⟨0, 0, [2], 1, 0, false, false⟩],
-   1, mis5.w,
-   upd mis5.sc 0 (.run 1 4 [] [] 0 (.loaded 1 0)), [2]⟩
-theorem mis6_step : step? ⟨3⟩ mis5 (.sLoadVer 0) = some mis6 := rfl
-
-def mis7 : State :=
-  ⟨[⟨0, 0, [2], 1, 0, false, false⟩],
-   1, mis6.w,
-   upd mis6.sc 0 (.run 1 4 [] [] 0 (.snapped 1 0 [2])), [2]⟩
-theorem mis7_step : step? ⟨3⟩ mis6 (.sSnapshot 0) = some mis7 := rfl
-
-def mis8 : State :=
-  ⟨[⟨0, 0, [2], 1, 0, false, false⟩],
-   1, mis7.w,
-   upd mis7.sc 0 (.fin 1 4 [2] [(0, 1, 0)]), [2]⟩
-theorem mis8_step : step? ⟨3⟩ mis7 (.sValidate 0) = some mis8 := rfl
-
-def mis9 : State :=
-  ⟨[⟨0, 0, [2], 1, 0, true, false⟩],
-   1, upd mis8.w 1 (.held 3 0),
-   mis8.sc, [2]⟩
-theorem mis9_step : step? ⟨3⟩ mis8 (.wLock 1 3 0) = some mis9 := rfl
-
-def mis10 : State :=
-  ⟨[⟨0, 0, [2, 3], 1, 0, true, true⟩],
-   1, upd mis9.w 1 (.published 3 0),
-   mis9.sc, [2]⟩
-theorem mis10_step : step? ⟨3⟩ mis9 (.wInsert 1) = some mis10 := rfl
-
-def mis11 : State :=
-  ⟨[⟨0, 0, [2, 3], 2, 0, false, false⟩],
-   1, upd mis10.w 1 .idle,
-   mis10.sc, [3, 2]⟩
-theorem mis11_step : step? ⟨3⟩ mis10 (.wUnlock 1) = some mis11 := rfl
-
-theorem mis_exec : exec ⟨3⟩ init
-    [.wLock 0 2 0, .wInsert 0, .wUnlock 0, .sStart 0 1 4, .sEnter 0 0, .sLoadVer 0, .sSnapshot 0,
-     .sValidate 0, .wLock 1 3 0, .wInsert 1, .wUnlock 1] =
-    some mis11 :=
-  exec_cons mis1_step (exec_cons mis2_step (exec_cons mis3_step (exec_cons mis4_step (exec_cons
-    mis5_step (exec_cons mis6_step (exec_cons mis7_step (exec_cons mis8_step (exec_cons mis9_step
-    (exec_cons mis10_step (exec_cons mis11_step rfl))))))))))
-
-/-! ### C06 `exactRun` (after the prefix) -/
-
-def exa10 : State :=
-  ⟨[⟨0, 0, [1, 3, 5], 3, 0, true, false⟩],
-   1, upd pre9.w 1 (.held 4 0),
-   pre9.sc, [5, 3, 1]⟩
-theorem exa10_step : step? ⟨3⟩ pre9 (.wLock 1 4 0) = some exa10 := rfl
-
-def exa11 : State :=
-  ⟨[⟨0, 0, [1, 3, 4], 3, 0, true, true⟩, ⟨1, 5, [5], 3, 0, true, true⟩],
-   2, upd exa10.w 1 (.splitDone 4 0 1),
-   exa10.sc, [5, 3, 1]⟩
-theorem exa11_step : step? ⟨3⟩ exa10 (.wSplit 1) = some exa11 := rfl
-
-def exa12 : State :=
-  ⟨[⟨0, 0, [1, 3, 4], 4, 1, false, false⟩, ⟨1, 5, [5], 3, 0, true, true⟩],
-   2, upd exa11.w 1 (.splitHalf 4 1),
-   exa11.sc, [5, 3, 1]⟩
-theorem exa12_step : step? ⟨3⟩ exa11 (.wUnlockL 1) = some exa12 := rfl
-
-def exa13 : State :=
-  ⟨[⟨0, 0, [1, 3, 4], 4, 1, false, false⟩, ⟨1, 5, [5], 4, 1, false, false⟩],
-   2, upd exa12.w 1 .idle,
-   exa12.sc, [4, 5, 3, 1]⟩
-theorem exa13_step : step? ⟨3⟩ exa12 (.wUnlockR 1) = some exa13 := rfl
-
-def exa14 : State :=
-  ⟨[⟨0, 0, [1, 3, 4], 4, 1, false, false⟩, ⟨1, 5, [5], 4, 1, false, false⟩],
-   2, exa13.w,
-   upd exa13.sc 0 (.want 1 6), [4, 5, 3, 1]⟩
-theorem exa14_step : step? ⟨3⟩ exa13 (.sStart 0 1 6) = some exa14 := rfl
-
-def exa15 : State :=
-  ⟨[⟨0, 0, [1, 3, 4], 4, 1, false, false⟩, ⟨1, 5, [5], 4, 1, false, false⟩],
-   2, exa14.w,
-   upd exa14.sc 0 (.run 1 6 [] [] 0 .fresh), [4, 5, 3, 1]⟩
-theorem exa15_step : step? ⟨3⟩ exa14 (.sEnter 0 0) = some exa15 := rfl
-
-def exa16 : State :=
-  ⟨[⟨0, 0, [1, 3, 4], 4, 1, false, false⟩, ⟨1, 5, [5], 4, 1, false, false⟩],
-   2, exa15.w,
-   upd exa15.sc 0 (.run 1 6 [] [] 0 (.loaded 4 1)), [4, 5, 3, 1]⟩
-theorem exa16_step : step? ⟨3⟩ exa15 (.sLoadVer 0) = some exa16 := rfl
-
-def exa17 : State :=
-  ⟨[⟨0, 0, [1, 3, 4], 4, 1, false, false⟩, ⟨1, 5, [5], 4, 1, false, false⟩],
-   2, exa16.w,
-   upd exa16.sc 0 (.run 1 6 [] [] 0 (.snapped 4 1 [1, 3, 4])), [4, 5, 3, 1]⟩
-theorem exa17_step : step? ⟨3⟩ exa16 (.sSnapshot 0) = some exa17 := rfl
-
-def exa18 : State :=
-  ⟨[⟨0, 0, [1, 3, 4], 4, 1, false, false⟩, ⟨1, 5, [5], 4, 1, false, false⟩],
-   2, exa17.w,
-   upd exa17.sc 0 (.run 1 6 [1, 3, 4] [(0, 4, 1)] 1 .fresh), [4, 5, 3, 1]⟩
-theorem exa18_step : step? ⟨3⟩ exa17 (.sValidate 0) = some exa18 := rfl
-
-def exa19 : State :=
-  ⟨[⟨0, 0, [1, 3, 4], 4, 1, false, false⟩, ⟨1, 5, [5], 4, 1, false, false⟩],
-   2, exa18.w,
-   upd exa18.sc 0 (.run 1 6 [1, 3, 4] [(0, 4, 1)] 1 (.loaded 4 1)), [4, 5, 3, 1]⟩
-theorem exa19_step : step? ⟨3⟩ exa18 (.sLoadVer 0) = some exa19 := rfl
-
-def exa20 : State :=
-  ⟨[⟨0, 0, [1, 3, 4], 4, 1, false, false⟩, ⟨1, 5, [5], 4, 1, false, false⟩],
-   2, exa19.w,
-   upd exa19.sc 0 (.run 1 6 [1, 3, 4] [(0, 4, 1)] 1 (.snapped 4 1 [5])), [4, 5, 3, 1]⟩
-theorem exa20_step : step? ⟨3⟩ exa19 (.sSnapshot 0) = some exa20 := rfl
-
-def exa21 : State :=
-  ⟨[⟨0, 0, [1, 3, 4], 4, 1, false, false⟩, ⟨1, 5, [5], 4, 1, false, false⟩],
-   2, exa20.w,
-   upd exa20.sc 0 (.fin 1 6 [1, 3, 4, 5] [(0, 4, 1), (1, 4, 1)]), [4, 5, 3, 1]⟩
-theorem exa21_step : step? ⟨3⟩ exa20 (.sValidate 0) = some exa21 := rfl
-
-theorem exa_exec : exec ⟨3⟩ pre9
-    [.wLock 1 4 0, .wSplit 1, .wUnlockL 1, .wUnlockR 1, .sStart 0 1 6, .sEnter 0 0, .sLoadVer 0,
-     .sSnapshot 0, .sValidate 0, .sLoadVer 0, .sSnapshot 0, .sValidate 0] =
-    some exa21 :=
-  exec_cons exa10_step (exec_cons exa11_step (exec_cons exa12_step (exec_cons exa13_step
-    (exec_cons exa14_step (exec_cons exa15_step (exec_cons exa16_step (exec_cons exa17_step
-    (exec_cons exa18_step (exec_cons exa19_step (exec_cons exa20_step (exec_cons exa21_step
-    rfl)))))))))))
-
-/-! ### C06 `splitRun` (after the prefix) -/
-
-def spl10 : State :=
-  ⟨[⟨0, 0, [1, 3, 5], 3, 0, false, false⟩],
-   1, pre9.w,
-   upd pre9.sc 0 (.want 1 6), [5, 3, 1]⟩
-theorem spl10_step : step? ⟨3⟩ pre9 (.sStart 0 1 6) = some spl10 := rfl
-
-def spl11 : State :=
-  ⟨[⟨0, 0, [1, 3, 5], 3, 0, false, false⟩],
-   1, spl10.w,
-   upd spl10.sc 0 (.run 1 6 [] [] 0 .fresh), [5, 3, 1]⟩
-theorem spl11_step : step? ⟨3⟩ spl10 (.sEnter 0 0) = some spl11 := rfl
-
-def spl12 : State :=
-  ⟨[⟨0, 0, [1, 3, 5], 3, 0, false, false⟩],
-   1, spl11.w,
-   upd spl11.sc 0 (.run 1 6 [] [] 0 (.loaded 3 0)), [5, 3, 1]⟩
-theorem spl12_step : step? ⟨3⟩ spl11 (.sLoadVer 0) = some spl12 := rfl
-
-def spl13 : State :=
-  ⟨[⟨0, 0, [1, 3, 5], 3, 0, false, false⟩],
-   1, spl12.w,
-   upd spl12.sc 0 (.run 1 6 [] [] 0 (.snapped 3 0 [1, 3, 5])), [5, 3, 1]⟩
-theorem spl13_step : step? ⟨3⟩ spl12 (.sSnapshot 0) = some spl13 := rfl
-
-def spl14 : State :=
-  ⟨[⟨0, 0, [1, 3, 5], 3, 0, false, false⟩],
-   1, spl13.w,
-   upd spl13.sc 0 (.fin 1 6 [1, 3, 5] [(0, 3, 0)]), [5, 3, 1]⟩
-theorem spl14_step : step? ⟨3⟩ spl13 (.sValidate 0) = some spl14 := rfl
-
-def spl15 : State :=
-  ⟨[⟨0, 0, [1, 3, 5], 3, 0, true, false⟩],
-   1, upd spl14.w 1 (.held 6 0),
-   spl14.sc, [5, 3, 1]⟩
-theorem spl15_step : step? ⟨3⟩ spl14 (.wLock 1 6 0) = some spl15 := rfl
-
-def spl16 : State :=
-  ⟨[⟨0, 0, [1, 3], 3, 0, true, true⟩, ⟨1, 5, [5, 6], 3, 0, true, true⟩],
-   2, upd spl15.w 1 (.splitDone 6 0 1),
-   spl15.sc, [5, 3, 1]⟩
-theorem spl16_step : step? ⟨3⟩ spl15 (.wSplit 1) = some spl16 := rfl
-
-def spl17 : State :=
-  ⟨[⟨0, 0, [1, 3], 4, 1, false, false⟩, ⟨1, 5, [5, 6], 3, 0, true, true⟩],
-   2, upd spl16.w 1 (.splitHalf 6 1),
-   spl16.sc, [5, 3, 1]⟩
-theorem spl17_step : step? ⟨3⟩ spl16 (.wUnlockL 1) = some spl17 := rfl
-
-def spl18 : State :=
-  ⟨[⟨0, 0, [1, 3], 4, 1, false, false⟩, ⟨1, 5, [5, 6], 4, 1, false, false⟩],
-   2, upd spl17.w 1 .idle,
-   spl17.sc, [6, 5, 3, 1]⟩
-theorem spl18_step : step? ⟨3⟩ spl17 (.wUnlockR 1) = some spl18 := rfl
-
-theorem spl_exec : exec ⟨3⟩ pre9
-    [.sStart 0 1 6, .sEnter 0 0, .sLoadVer 0, .sSnapshot 0, .sValidate 0, .wLock 1 6 0, .wSplit 1,
-     .wUnlockL 1, .wUnlockR 1] =
-    some spl18 :=
-  exec_cons spl10_step (exec_cons spl11_step (exec_cons spl12_step (exec_cons spl13_step
-    (exec_cons spl14_step (exec_cons spl15_step (exec_cons spl16_step (exec_cons spl17_step
-    (exec_cons spl18_step rfl))))))))
 
 end Yak.Proto.NodeSet.Witness
